@@ -53,6 +53,7 @@ class Universe(object):
         self.aliases = []   # python lists the harness holds on to
         self.files = []     # durable store: dicts {path, backend, doc}
         self.merges = []    # (dest index, source index) of Section merges that succeeded
+        self.templates = None  # the run's TemplateHandler (created on first use)
         self.corrupt = None  # set by the structural guard
 
     # -- registry ---------------------------------------------------------
